@@ -2,3 +2,8 @@ import NTV.Proofs.C06
 #print axioms NTV.C06.primes_visited
 #print axioms NTV.C06.stored_basis_canonical
 #print axioms NTV.C06.zero_discriminant_refused
+#print axioms NTV.C06.one_step_contains
+#print axioms NTV.C06.one_step_discriminant_partial
+#print axioms NTV.C06.prime_loop_contains
+#print axioms NTV.C06.result_contains_start
+#print axioms NTV.C06.printed_index_and_disc
